@@ -69,6 +69,10 @@ func ruleC06(c *Check) {
 	c.newBatchRules("C06", map[string]bool{"skip-with-charge": true, "issue-after-pause": true, "payfail-no-pause": true, "list-vs-amount": true,
 		"obligation-without-credit": true, "running-no-successor": true, "issue-while-not-running": true})
 	c.issueDecision("C06.4")
+	// the price the filter compares with the fee cap is read off the stored base price, which the parser never leaves empty
+	c.priceNonEmpty("C06.10", c.handFuncs("keeper"))
+	// an accepted change of the committed response time (or of the price) is persisted: eligibility reads the stored binding
+	c.depositPairing("C06.11")
 	c.issueLoopOverList("C06.3")
 	// "within the consumer's fee cap": the cap in force is the one the consumer last set
 	c.updatesTakeEffect("C06.9")
@@ -97,7 +101,9 @@ func ruleC07(c *Check) {
 	c.respondRules("C07")
 	c.volumeWriters("C07.5")
 	c.pricingTextPairs("C07.6")
-	c.newBatchRules("C07", map[string]bool{"supermode-charged": true})
+	c.newBatchRules("C07", map[string]bool{"supermode-charged": true, "issue-after-pause": true, "obligation-without-credit": true})
+	// the discounts are bounded by the schema that message validation applies to the pricing text — on every path
+	c.validatorsOnEveryPath("C07.12")
 	c.paramGettersExact("C07.1", "KeyBaseDenom")
 	c.moduleServiceNotSuper("C07.7")
 	c.discountPattern("C07.9")
@@ -112,6 +118,9 @@ func ruleC13(c *Check) {
 	c.withdrawAddressSet("C13.8")
 	// an owner's withdrawal address survives a restart of the chain from exported state
 	c.genesisImportsAll("C13.9")
+	// an owner's total is the sum over the providers its index lists: an index entry that is removed takes the provider's
+	// records out of every later whole-owner withdrawal
+	c.ownerRecordsStable("C13.10")
 	c.assume("A-SDK: sdk.Coins arithmetic is correct")
 	c.earnRules("C13")
 	c.withdrawRules("C13")
